@@ -489,6 +489,8 @@ def run(chk):
     rule_phases(chk, prog)
     rule_entry(chk, prog)
     rule_reroute_loop(chk, prog)
+    from .c15 import rule_action_identity
+    rule_action_identity(chk, prog)
     from .c04 import rule_blocker_recorded
     from .c03 import rule_blocking_scan
     rule_blocker_recorded(chk, prog)
